@@ -62,4 +62,19 @@ TEXTS = {
         "level_text": "Exploration: >10^5 filter sets per quick run, every message decision compared with the specification, forwarded sequence and counters checked.",
         "level_note": "single-filter semantics are C11's business (same specification function is used here)",
     },
+    "C13": {
+        "technique": T + "differential oracle: bounded pipeline (tiny capacities, stalls, pause hooks, consumer drop) vs unbounded reference, at library level and with the real binary; watchdog on stage termination; hook census of full-channel waits as evidence",
+        "level_text": "Exploration: >10^3 pipelines per quick run, each observed under >=1 adversarial pacing; >10^4 full-channel waits observed; termination of every stage after consumer drop checked with a 120 s bound.",
+        "level_note": "thread schedules are sampled, not enumerated; plugins stage runs without configured plugins (plugin semantics are C19)",
+    },
+    "C18": {
+        "technique": T + "round-trip oracle over three encoders and the real argument iterator + independent canonical text formatter; exhaustive truncation points per sample; detectable single-field corruptions must yield a prefix",
+        "level_text": "Exploration with per-sample exhaustive truncation: >10^6 argument lists and >5*10^7 truncation points per quick run.",
+        "level_note": "trusts the 30-line canonical formatter and the harness encoder",
+    },
+    "C20": {
+        "technique": T + "reference-model monitor (std::io::Cursor over the concatenation) of every read/seek of SeekableChain; sandbox monitor of extraction (reported paths, contents vs archive members written by an independent raw zip writer, directory listing before/after)",
+        "level_text": "Exploration: >10^6 read/seek histories and >2*10^4 hostile archives per quick run; Miri and valgrind shards for the extraction copy loop in thorough.",
+        "level_note": "archives are 'stored' zip files from the harness' own writer; compression paths of the zip crate are dependency code",
+    },
 }
